@@ -25,6 +25,7 @@ type Tmpl struct {
 	Res   byte // result kind of the default instance; 0 = statement (cannot be nested)
 	Pool  int  // nestable: 0 no, 1 thorough, 2 quick and thorough
 	Outer int  // takes nested operands: 0 never, 1 thorough, 2 quick and thorough
+	Small bool // even in thorough, only the small (quick) pool is nested here
 }
 
 func (t *Tmpl) inst(sub map[int]*Node) *Node {
@@ -236,9 +237,16 @@ func callTemplates() []*Tmpl {
 	poolCallees := map[string]bool{"f0": true, "f2": true, "f4": true, "f5": true, "fv1": true, "g2": true, "g3": true, "gv1": true, "ga1": true}
 	for _, c := range allCallees {
 		c := c
+		spreadMisInPool := false
 		for _, sh := range shapesFor(c) {
 			sh := sh
 			isMatch := shapeMatched(c, sh)
+			poolShape := isMatch || !sh.spread
+			if !isMatch && sh.spread && sh.slen > 0 && !spreadMisInPool {
+				// one mis-counted spread shape per callee is enough in the nested pool
+				spreadMisInPool = true
+				poolShape = true
+			}
 			mk := func(stmt string, path string, conv int) *Tmpl {
 				if path == "lit" && !c.Script {
 					return nil
@@ -303,14 +311,16 @@ func callTemplates() []*Tmpl {
 				}
 				t := &Tmpl{Name: name, Fam: fam, Slots: slots, Build: build, Outer: 2}
 				if !isMatch {
+					// only the weaker guarantee applies to a mis-counted call
 					t.Outer = 1
+					t.Small = true
 				}
 				if stmt == "" {
 					t.Res = 'I'
 					if conv < 0 {
 						if quickPool[name] {
 							t.Pool = 2
-						} else if poolCallees[c.Name] && (path == "ident" || (sh.k == c.NFixed && !sh.spread && (c.Name == "f2" || c.Name == "f5"))) {
+						} else if poolCallees[c.Name] && poolShape && (path == "ident" || (sh.k == c.NFixed && !sh.spread && (c.Name == "f2" || c.Name == "f5"))) {
 							t.Pool = 1
 						}
 					}
@@ -763,18 +773,31 @@ type Job struct {
 	Gen    func(emit func(root *Node, class string))
 }
 
-// failingVariants emits mk() with the j-th leaf replaced by a failing leaf, for every j.
-func failingVariants(mk func() *Node, class string, kinds []int, emit func(*Node, string)) {
+// failingVariants emits mk() with the j-th leaf replaced by a failing leaf, for
+// every leaf j (of the subtree `within` returned by mk, when it is not nil).
+func failingVariants(mk func() (root, within *Node), class string, kinds []int, emit func(*Node, string)) {
+	root, within := mk()
 	var ls []*Node
-	mk().leaves(&ls)
+	root.leaves(&ls)
+	in := map[*Node]bool{}
+	if within != nil {
+		var ws []*Node
+		within.leaves(&ws)
+		for _, w := range ws {
+			in[w] = true
+		}
+	}
 	for j := range ls {
+		if within != nil && !in[ls[j]] {
+			continue
+		}
 		for _, kind := range kinds {
-			root := mk()
+			root, _ := mk()
 			jj := j
 			if !root.replaceLeaf(&jj, pErr(kind)) {
 				panic("replaceLeaf")
 			}
-			emit(root, class+"+fail")
+			emit(root, class)
 		}
 	}
 }
@@ -799,7 +822,7 @@ func buildJobs(thorough bool) []Job {
 			emit(t.inst(nil), t.Fam)
 		}})
 		jobs = append(jobs, Job{Space: "single-template+failing-leaf", Sample: i%211 == 0, Gen: func(emit func(*Node, string)) {
-			failingVariants(func() *Node { return t.inst(nil) }, t.Fam, []int{1, 2}, emit)
+			failingVariants(func() (*Node, *Node) { return t.inst(nil), nil }, t.Fam, []int{1, 2}, emit)
 		}})
 	}
 	// level 2: one template nested inside each operand of another
@@ -815,21 +838,24 @@ func buildJobs(thorough bool) []Job {
 			k, s := k, s
 			jobs = append(jobs, Job{Space: "nested", Sample: (i+k)%389 == 0, Gen: func(emit func(*Node, string)) {
 				for _, u := range pool {
-					if !accepts(s, u.Res) {
+					if !accepts(s, u.Res) || (t.Small && u.Pool < 2) {
 						continue
 					}
 					u := u
-					emit(t.inst(map[int]*Node{k: u.exprInst()}), t.Fam+"+nested")
+					emit(t.inst(map[int]*Node{k: u.exprInst()}), t.Fam)
 				}
 			}})
 			if thorough {
 				jobs = append(jobs, Job{Space: "nested+failing-leaf", Sample: (i+k)%997 == 0, Gen: func(emit func(*Node, string)) {
 					for _, u := range pool {
-						if !accepts(s, u.Res) {
+						if !accepts(s, u.Res) || (t.Small && u.Pool < 2) {
 							continue
 						}
 						u := u
-						failingVariants(func() *Node { return t.inst(map[int]*Node{k: u.exprInst()}) }, t.Fam+"+nested", []int{1}, emit)
+						failingVariants(func() (*Node, *Node) {
+							in := u.exprInst()
+							return t.inst(map[int]*Node{k: in}), in
+						}, t.Fam, []int{1}, emit)
 					}
 				}})
 			}
